@@ -22,18 +22,18 @@ def fail? : String → Option Fail
   | _ => none
 
 /-- one op per line:
-  init role tw hasSpecial ldmIsolated restartHold | start | stop | report rid its|- heading|- speed|- lat7|- lon7|-
+  init role tw hasSpecial ldmIsolated restartHold holdSticky | start | stop | report rid its|- heading|- speed|- lat7|- lon7|-
   | expire tracked | check now dist fail      (dist = haversine distance [mm] of the model's reference position and the
   current report's position, from the harness's independent oracle: the driver runs the step with `hav := fun _ _ => dist`) -/
 def camStep (s : State) (t : List String) : State × String :=
   match t with
-  | ["init", role, tw, sp, iso, hold] =>
-    match nat? role, nat? tw, nat? sp, nat? iso, nat? hold with
-    | some role, some tw, some sp, some iso, some hold =>
+  | ["init", role, tw, sp, iso, hold, sticky] =>
+    match nat? role, nat? tw, nat? sp, nat? iso, nat? hold, nat? sticky with
+    | some role, some tw, some sp, some iso, some hold, some sticky =>
       let s' := init { role := role, twoWheeler := tw != 0, hasSpecialData := sp != 0, ldmIsolated := iso != 0,
-                       restartHold := hold != 0 }
+                       restartHold := hold != 0, holdSticky := sticky != 0 }
       (s', stLine s')
-    | _, _, _, _, _ => (s, "bad-op")
+    | _, _, _, _, _, _ => (s, "bad-op")
   | ["start"] => let s' := (step (fun _ _ => 0) s .start).1; (s', stLine s')
   | ["stop"] => let s' := (step (fun _ _ => 0) s .stop).1; (s', stLine s')
   | ["report", rid, its, h, v, la, lo] =>
